@@ -101,6 +101,19 @@ def alias_cases():
         ["-T", "s1", "s2", "dst"] if False else ["s1/t", "s2/t", "dst"], ["other/keep", "s2/t/x"], True)
     add("same-name-link-then-directory-through-it", base + [D("s1"), L("s1/t", "../other"), D("s2"), D("s2/t"), F("s2/t/keep", 50, 63), D("dst")],
         ["s1/t", "s2/t", "dst"], ["other/keep", "s2/t/keep"], True)
+    # a file copied into the directory that holds a directory of the file's own name -- which is where the file lives
+    # (with --backup the entry in the way is renamed: that must never be the directory containing the source)
+    add("file-into-dir-where-its-own-parent-has-its-name", [D("w"), D("w/f"), F("w/f/f", 30, 81), F("w/f/bystander", 40, 82), D("other"), F("other/keep", 99, 13)],
+        ["w/f/f", "w"], ["w/f/f", "w/f/bystander"])
+    add("file-into-dir-where-its-own-parent-has-its-name-T", [D("w"), D("w/f"), F("w/f/f", 30, 81), F("w/f/bystander", 40, 82), D("other"), F("other/keep", 99, 13)],
+        ["-T", "w/f/f", "w/f"], ["w/f/f", "w/f/bystander"])
+    # the source lies inside the very tree it (or an earlier source) is copied onto
+    add("source-inside-its-own-target", [D("a"), D("a/b"), D("a/b/b"), F("a/b/b/x", 30, 83), D("a/b/b/b"), F("a/b/b/b/x", 40, 84), D("other"), F("other/keep", 99, 13)],
+        ["a/b/b", "a"], ["a/b/b/x", "a/b/b/b/x"], True)
+    add("later-source-inside-earlier-target", [D("x"), D("x/sub"), F("x/sub/f", 30, 85), D("dd"), D("dd/x"), D("dd/x/sub"), F("dd/x/sub/f", 40, 86), D("other"), F("other/keep", 99, 13)],
+        ["x", "dd/x/sub", "dd"], ["dd/x/sub/f", "x/sub/f"], True)
+    add("later-file-source-inside-earlier-target", [D("x"), F("x/f", 30000, 87), D("dd"), D("dd/x"), F("dd/x/f", 40000, 88), D("other"), F("other/keep", 99, 13)],
+        ["x", "dd/x/f", "dd"], ["dd/x/f", "x/f"], True)
     add("link-dot-slash", base + [F("f"), L("l", "f")], ["l", "./l"], ["l", "f"])
     add("link-in-T-respelled-dir", [D("d"), F("d/f"), L("d/l", "f"), D("other"), F("other/keep", 99, 13)], ["-T", "d", "./d"], ["d/f", "d/l"], True)
     add("two-sources-one-alias", base + [F("f"), D("dst"), L("dst/f", "../f")], ["other/keep", "f", "dst"], ["f", "other/keep"])
